@@ -715,7 +715,7 @@ pub fn build(quick: bool) -> Check {
     families.push(Box::new(KindWalks { depth: if quick { 4 } else { 5 }, core: false }));
     families.push(Box::new(KindWalks { depth: if quick { 5 } else { 6 }, core: true }));
     families.push(Box::new(KindWalks { depth: if quick { 6 } else { 7 }, core: true }));
-    families.push(Box::new(super::soak::Soak { label: "all-mixes", lens: super::soak::lens(quick), mixes: super::soak::MIXES.to_vec(), opts: super::soak::opts_all().into_iter().filter(|o| o.1.seq_stride != 0).collect() }));
+    families.push(Box::new(super::soak::Soak { label: "all-mixes", lens: super::soak::lens(quick), mixes: super::soak::MIXES.to_vec(), opts: super::soak::opts_all().into_iter().filter(|o| o.1.seq_stride != 0).collect(), big: super::soak::big_default(quick).into_iter().filter(|b| [1usize, 2].contains(&b.2)).map(|(n, m, o)| (n, m, o - 1)).collect() }));
     families.push(Box::new(Fragmented {
         firsts: if quick { vec![0, 254] } else { vec![0, 1, 253, 254, 255] },
         nfrag: if quick { vec![2, 3] } else { vec![2, 3, 4] },
